@@ -106,7 +106,8 @@ extern "C" std::pair<std::vector<double>,std::vector<double>> __wrap__ZN12WorldB
 {
   std::pair<std::vector<double>,std::vector<double>> r;
   const unsigned n = H::prm.len_of(*name);
-  for (unsigned i = 0; i < n; ++i) r.first.push_back(sym_f64(name->c_str()));
+  r.first.push_back(0.0);                                    // time(s); the values (one, or one per ridge point) are in .second
+  for (unsigned i = 0; i < n; ++i) r.second.push_back(sym_f64(name->c_str()));
   return r;
 }
 // "min depth"/"max depth" given as value or as values at points
